@@ -36,7 +36,7 @@ from contextlib import contextmanager
 from .parameterized import (
     Parameterized, Parameter, ParameterizedFunction, ParamOverrides, String,
     Undefined, get_logger, instance_descriptor, _dt_types,
-    _int_types, _identity_hook, edit_constant
+    _int_types, _identity_hook, edit_constant, resolve_ref
 )
 from ._utils import (
     ParamFutureWarning as _ParamFutureWarning,
@@ -49,6 +49,7 @@ from ._utils import (
     _get_min_max_value,
     _is_number,
     concrete_descendents,
+    iscoroutinefunction,
     _abbreviate_paths,
     _to_datetime,
 )
@@ -536,9 +537,22 @@ class Dynamic(Parameter):
 
         If val is dynamic, initialize it as a generator.
         """
+        dynamic = callable(val) and not (
+            self.allow_refs and obj is not None and (
+                iscoroutinefunction(val) or inspect.isgeneratorfunction(val)
+                or resolve_ref(val, self.nested_refs)))
+        if dynamic:
+            # (checked without touching the state a generator may have)
+            try:
+                val._Dynamic_probe = None
+                del val._Dynamic_probe
+            except (AttributeError, TypeError):
+                raise TypeError(
+                    f"{type(self).__name__} parameter {self.name!r} cannot use {val!r} "
+                    "to generate values: it does not accept attributes."
+                ) from None
         super().__set__(obj,val)
 
-        dynamic = callable(val)
         if dynamic: self._initialize_generator(val,obj)
         if obj is None: self._set_instantiate(dynamic)
 
